@@ -148,7 +148,7 @@ func runC11(c *Ctx, r *Report) {
 	r.Rule("C11/T1", "inside a write gate the logged value depends on the data only when the redaction flag is false", 1)
 	r.Rule("C11/T2", "every gate call with tainted data passes constant true, the enclosing gate's own flag, or the HideInput of the same event", 5)
 	r.Rule("C11/T3", "every interactive event literal with tainted ChannelInput has HideInput: true", 1)
-	r.Rule("C11/T4", "no tainted value reaches a logging sink (one obligation per sink call site)", 35)
+	r.Rule("C11/T4", "no tainted value reaches a logging sink (one obligation per sink call site)", 15)
 	r.Rule("C11/T5", "the channel log receives exactly the value enqueued from the transport read", 1)
 	r.Rule("C11/T6", "platform channel.write steps pass the definition's redacted flag to the gate", 1)
 
